@@ -5,6 +5,6 @@ CONSTANTS
   MaxSteps = 6
   Classes = {"GoodKA", "BadLine", "BadCL", "TlsHello", "Truncate", "Rest"}
   Racing = FALSE
-  DefectSets = {{}, {"keepbuf", "echo505"}}
+  DefectSets = {{}, {"keepbuf"}, {"echo505"}, {"keepbuf", "echo505"}}
 INVARIANT TypeOK
 CHECK_DEADLOCK FALSE
